@@ -110,7 +110,13 @@ def run(case):
     def one(k, wt, variant, kw_extra, ignored=(), scaling=None, starts=(), ends=(), pool=None):
         kw = {"k": k, "weight_type": wt}
         kw.update(kw_extra)
-        obs = drivers.observe(dict(case, cls=cls, kw=kw), G)
+        if variant.startswith("noise"):
+            # solver answers within tolerance: every value read from the solver shifted by -/+ 5e-10
+            from .. import faults
+            with faults.ValueNoise(-5e-10 if variant.endswith("-") else 5e-10):
+                obs = drivers.observe(dict(case, cls=cls, kw=kw), G)
+        else:
+            obs = drivers.observe(dict(case, cls=cls, kw=kw), G)
         tags[f"{fam}:{variant}"] += 1
         ctx = f"{cls}(k={k}, {wt}, {variant}={kw_extra})"
         if obs["exc"]:
@@ -199,6 +205,8 @@ def run(case):
             one(k, wt, "plain", {})
             if len(viol) > 4:
                 return _ret(viol, nt, tags)
+    one(1, "int", "noise-", {})
+    one(min(2, case["kmax"]), "int", "noise+", {})
     if not case["full"]:
         return _ret(viol, nt, tags)
     k = min(2, case["kmax"])
